@@ -64,6 +64,32 @@ def churn(name, rounds, size):
                       {"name": "t", "ops": tops}]}
 
 
+def comeback(name, who):
+    """the bound side goes away and a new socket binds the same port; the connected side must come back.
+    who = "push": a PUSH connects to PULLs; who = "pull": a PULL connects to PUSHes."""
+    ropt = [S.i32(S.RECONNECT_IVL, 100), S.i32(S.RECONNECT_IVL_MAX, 200)]
+    if who == "push":
+        return {"name": name, "deadline_ms": 40000,
+                "sockets": [{"name": "tx", "type": "PUSH", "opts": ropt + [S.i32(S.SNDTIMEO, 4000)]}, {"name": "rx1", "type": "PULL", "opts": []}, {"name": "rx2", "type": "PULL", "opts": []}],
+                "tasks": [{"name": "r", "ops": [{"op": "bind", "sock": "rx1", "ep": "tcp://127.0.0.1:0", "save": "ep"}, {"op": "barrier", "name": "go", "parties": 2},
+                                               {"op": "recv_n", "sock": "rx1", "n": 20, "timeout_ms": 3000}, {"op": "close", "sock": "rx1"}, {"op": "sleep", "ms": 500},
+                                               {"op": "bind", "sock": "rx2", "ep": "$ep"}, {"op": "barrier", "name": "back", "parties": 2},
+                                               {"op": "recv_n", "sock": "rx2", "n": 30, "timeout_ms": 6000}]},
+                          {"name": "t", "ops": [{"op": "barrier", "name": "go", "parties": 2}, {"op": "connect", "sock": "tx", "ep": "$ep"},
+                                               {"op": "send_n", "sock": "tx", "prefix": "c", "n": 20, "sizes": [64], "timeout_ms": 3000},
+                                               {"op": "barrier", "name": "back", "parties": 2}, {"op": "sleep", "ms": 900},
+                                               {"op": "send_n", "sock": "tx", "prefix": "back", "n": 30, "sizes": [64], "timeout_ms": 4000, "max_errs": 2}]}]}
+    return {"name": name, "deadline_ms": 40000,
+            "sockets": [{"name": "rx", "type": "PULL", "opts": ropt}, {"name": "tx1", "type": "PUSH", "opts": [S.i32(S.LINGER, 2000)]},
+                        {"name": "tx2", "type": "PUSH", "opts": [S.i32(S.LINGER, 2000), S.i32(S.SNDTIMEO, 4000)]}],
+            "tasks": [{"name": "t", "ops": [{"op": "bind", "sock": "tx1", "ep": "tcp://127.0.0.1:0", "save": "ep"}, {"op": "barrier", "name": "go", "parties": 2}, {"op": "sleep", "ms": 300},
+                                           {"op": "send_n", "sock": "tx1", "prefix": "c", "n": 20, "sizes": [64], "timeout_ms": 3000}, {"op": "sleep", "ms": 300},
+                                           {"op": "close", "sock": "tx1"}, {"op": "sleep", "ms": 500}, {"op": "bind", "sock": "tx2", "ep": "$ep"}, {"op": "sleep", "ms": 900},
+                                           {"op": "send_n", "sock": "tx2", "prefix": "back", "n": 30, "sizes": [64], "timeout_ms": 4000, "max_errs": 2}]},
+                      {"name": "r", "ops": [{"op": "barrier", "name": "go", "parties": 2}, {"op": "connect", "sock": "rx", "ep": "$ep"},
+                                           {"op": "recv_n", "sock": "rx", "n": 50, "timeout_ms": 4000}]}]}
+
+
 def stalled_then_reads(name, n, size):
     sc = S.push_pull(name, "tcp", n=n, sizes=(size,), tx_opts=[S.i32(S.SNDHWM, 8)], rx_opts=[S.i32(S.RCVHWM, 8)])
     for t in sc["tasks"]:
@@ -89,6 +115,8 @@ def workloads(thorough):
     w.append(("plain-good", plain("plain-good", True)))
     w.append(("plain-bad", plain("plain-bad", False)))
     w.append(("churn", churn("churn", 25 if thorough else 12, 3000)))
+    w.append(("comeback-pull", comeback("comeback-pull", "pull")))
+    w.append(("comeback-push", comeback("comeback-push", "push")))
     if thorough:
         w.append(("churn-big", churn("churn-big", 15, 70000)))
         w.append(("pp-ipc", S.push_pull("pp-ipc", "ipc", n=300, sizes=(64, 4000, 70000))))
